@@ -62,7 +62,39 @@ def dy(rnd, lo, hi, den=(1, 2, 4, 8)):
 
 
 # ------------------------------------------------------------------ linear / relative supply
+def exact(value, how):
+    """[numerator, denominator] as a Fraction or Decimal: exact rationals a site may configure and a pool may report."""
+    if not isinstance(value, list):
+        return value
+    import decimal
+    import fractions
+
+    if how == "fraction":
+        return fractions.Fraction(value[0], value[1])
+    return decimal.Decimal(value[0]) / decimal.Decimal(value[1])
+
+
+def gen_exact(rnd, spec):
+    """Thresholds that have no exact binary representation, and pools reporting exactly the threshold."""
+    den = rnd.choice([10, 10, 5, 20, 100])
+    low = rnd.randint(0, den)
+    high = low if rnd.random() < 0.3 else rnd.randint(low, den)
+    params = {"low_utilisation": [low, den], "high_allocation": [high, den]}
+    if spec["kind"] == "linear":
+        params["rate"] = rnd.choice([1, 2, 10])
+    else:
+        params["low_scale"], params["high_scale"] = rnd.choice([0.5, 0.75, 0.0]), rnd.choice([1.5, 2.0, 10])
+    steps = []
+    for _ in range(rnd.randint(1, 30)):
+        near = lambda x: rnd.choice([[x, den], [x, den], [x * 1000 + 1, den * 1000], [x * 1000 - 1, den * 1000], [rnd.randint(0, den), den]])  # noqa: E731
+        steps.append({"u": near(low), "a": near(high), "supply": rnd.choice([0, 1, 10, rnd.randint(0, 500)]),
+                      "demand": None if rnd.random() < 0.6 else rnd.randint(0, 1000), "interval": rnd.choice([1, 2, 5, 60])})
+    return {"kind": spec["kind"], "params": params, "steps": steps, "exact": rnd.choice(["fraction", "decimal"])}
+
+
 def gen_linrel(rnd, spec):
+    if rnd.random() < 0.12:
+        return gen_exact(rnd, spec)
     low = rnd.randint(0, 16) / 16
     high = low if rnd.random() < 0.3 else rnd.randint(int(low * 16), 16) / 16
     params = {"low_utilisation": low, "high_allocation": high}
@@ -99,6 +131,10 @@ def exec_linrel(case, result):
 
     pool = RecPool(demand=10, supply=10)
     p = case["params"]
+    if case.get("exact"):
+        p = {k: exact(v, case["exact"]) for k, v in p.items()}
+        case = dict(case, steps=[dict(st, u=exact(st["u"], case["exact"]), a=exact(st["a"], case["exact"])) for st in case["steps"]])
+        result.count("%s_cases_with_exact_rational_thresholds" % case["kind"])
     cls = LinearController if case["kind"] == "linear" else RelativeSupplyController
     try:
         ctrl = cls(pool, **p)
@@ -475,7 +511,7 @@ def finish(total, tier):
               "stepwise_steps_base", "stepwise_steps_rule", "stepwise_rule_returned_none",
               "switch_steps_default", "switch_steps_slave",
               "ctor_linear_rejected", "ctor_relative_rejected", "ctor_switch_rejected", "ctor_stepwise_rejected",
-              "ctor_linear_accepted", "ctor_switch_accepted"]
+              "ctor_linear_accepted", "linear_cases_with_exact_rational_thresholds", "relative_cases_with_exact_rational_thresholds", "ctor_switch_accepted"]
     for name in needed:
         if not total.counters.get(name) and not total.violations:
             total.inconc("monitor never observed: " + name)
